@@ -35,13 +35,16 @@
 (*               semantics, are the relocated paths of the source subtree  *)
 (*               (rules of the doc comment of manifest.Extract), each with *)
 (*               the source file's bytes.  Token layout, block order and   *)
-(*               being in normalised form are not judged.                  *)
+(*               being in normalised form are not judged.  "Preserves each *)
+(*               file's byte sequence" is read as "when read back": the    *)
+(*               produced locators must still carry hints (signatures)     *)
+(*               they had in the source (Manifest!HintsPreserved).         *)
 (*  (c) "the portable data hash is the MD5 and length of the manifest text *)
 (*      with every locator reduced to hash+size"                           *)
 (*          Pdh: got = want, where want is MD5+length (computed by the     *)
-(*               concretiser, crypto/md5) of the SAME abstract manifest    *)
-(*               rendered without hints.  Digests: SizedDigests returns    *)
-(*               the blocks in order, each reduced to hash+size.           *)
+(*               concretiser, crypto/md5) of the text of                   *)
+(*               Manifest!StripManifest(m); SizedDigests returns           *)
+(*               Manifest!StrippedBlocks(m) (in order, hash+size each).    *)
 (*  (d) "No parser panics or hangs on any input string, and malformed      *)
 (*      manifests are rejected with an error rather than partially applied"*)
 (*          Load: never "panic"/"hang"; for a single-token mutation that   *)
@@ -49,8 +52,18 @@
 (*          an error return must answer "error" for the mutation kinds in  *)
 (*          MustReject.  Arbitrary byte strings are outside this technique.*)
 (* Where the statement is silent the generator avoids the case: a path     *)
-(* that is both file and directory, "\\" in manifest text, "." / ".."      *)
-(* components, placeholder tokens "0:0:." .                                *)
+(* that is both file and directory, "." / ".." components, placeholder     *)
+(* tokens "0:0:.", and TWO CONSECUTIVE BACKSLASHES in manifest text.  On    *)
+(* the last one the published format decides nothing: it defines a single  *)
+(* escape ("Spaces are represented by the escape sequence \040") and lets  *)
+(* a path component be any printable non-blank ASCII, so by its letter     *)
+(* "\\" is two ordinary characters (the Python SDK's reading, and           *)
+(* Manifest!Unescape's); but by the same letter "\101" would be four        *)
+(* ordinary characters, which no codec implements and which would make a   *)
+(* name containing backslash-0-4-0 unrepresentable.  The Go codecs read    *)
+(* "\\" as one backslash, none of the three ever WRITES it (all write       *)
+(* \134).  So the contract takes no side; the two readings are recorded in *)
+(* ManifestCodecs!DoubleBackslashReadings so that a change shows up there. *)
 (***************************************************************************)
 EXTENDS Manifest
 
@@ -116,13 +129,12 @@ OutOK(src, rel, slash, kind, out) ==
     /\ LET em == ExtractMap(src, rel, slash)
        IN /\ Paths(out) = {x[2] : x \in em}
           /\ \A x \in em : Bytes(out, x[2]) = Bytes(m, x[1])
+    /\ HintsPreserved(m, out)                 \* ... and can be read back: locators keep hints they had in m
 Out(src, rel, slash, kind, out) == OutOK(src, rel, slash, kind, out) /\ UNCHANGED cvars
 
-AllBlocks == LET F[i \in 0 .. Len(m)] == IF i = 0 THEN <<>> ELSE F[i-1] \o m[i].blocks
-             IN F[Len(m)]
 PdhOK(got, want, dkind, blocks) == /\ mut = "none"
-                                   /\ got = want                          \* (c) PortableDataHash
-                                   /\ dkind = "ok" /\ blocks = AllBlocks   \* (c) SizedDigests
+                                   /\ got = want                                \* (c) PortableDataHash
+                                   /\ dkind = "ok" /\ blocks = StrippedBlocks(m) \* (c) SizedDigests
 Pdh(got, want, dkind, blocks) == PdhOK(got, want, dkind, blocks) /\ UNCHANGED cvars
 
 TypeOK == /\ codec \in Codecs \cup {"none"}
